@@ -21,9 +21,8 @@ Theorem c06_order : forall buf, wfbytes buf -> contiguous 0 (reported buf).
 Proof. exact reported_contiguous. Qed.
 Print Assumptions c06_order.
 
-(* it reports every element that precedes the first truncated or non-leading empty element:
-   'elements' is the maximal chain of fitting elements, and 'reported' is that chain cut only at an
-   empty element that is not the first *)
+(* it reports every element that precedes the first truncated one: 'elements' is the maximal chain of fitting
+   elements (it stops only where fewer than two bytes remain or a declared body does not fit) ... *)
 Theorem c06_elements_maximal : forall buf, wfbytes buf ->
   contiguous 0 (elements buf) /\ Forall (genuine buf) (elements buf) /\
   let stop := fold_left (fun _ e => e_off e + 2 + e_len e) (elements buf) 0 in
@@ -31,10 +30,17 @@ Theorem c06_elements_maximal : forall buf, wfbytes buf ->
 Proof. exact elements_maximal. Qed.
 Print Assumptions c06_elements_maximal.
 
-Theorem c06_complete : forall buf, exists tl, elements buf = reported buf ++ tl /\
-  (tl = [] \/ exists e r, tl = e :: r /\ e_len e = 0 /\ reported buf <> []).
-Proof. exact reported_prefix. Qed.
+(* ... and 'reported' is that whole chain: nothing is withheld (an element with an empty body used to end the
+   report - finding F44 - and is now an element like any other) *)
+Theorem c06_complete : forall buf, reported buf = elements buf.
+Proof. exact reported_all. Qed.
 Print Assumptions c06_complete.
+
+(* the same on the C loop itself: whenever the first element fits, the loop reports the maximal chain, all of it *)
+Theorem c06_reports_all : forall buf rd, wfbytes buf -> agrees rd buf -> elements buf <> [] ->
+  iterate rd (zlen buf) = Done (Ok (elements buf)).
+Proof. exact iterate_complete_all. Qed.
+Print Assumptions c06_reports_all.
 
 (* a buffer whose first element does not fit is refused *)
 Theorem c06_first_refused : forall buf rd, wfbytes buf -> agrees rd buf ->
